@@ -5,6 +5,8 @@ package revision
 import (
 	"math"
 	"math/big"
+	"strconv"
+	"strings"
 	"testing"
 
 	"go.sia.tech/core/types"
@@ -575,6 +577,15 @@ func baseFor(flat types.Currency, s st, e rv, we uint64) (base, risk *big.Int) {
 	return
 }
 
+// badSig: 0 = the renter signs correctly, 1 = bad clearing / final revision signature, 2 = bad signature
+// over the new contract's initial revision
+func badSig(r *vhlib.Rand) int {
+	if r.Chance(1, 8) {
+		return 1 + r.Intn(2)
+	}
+	return 0
+}
+
 func genC12(tr *vhlib.Trace, r *vhlib.Rand, rpc bool) {
 	s, h := genSettings(r)
 	rk := 0
@@ -589,7 +600,7 @@ func genC12(tr *vhlib.Trace, r *vhlib.Rand, rpc bool) {
 		mutateContract(r, &f)
 		mutateSettingsArg(r, &s, &h)
 		if rpc {
-			doRPCForm2(tr, f, rk, h, rh, s)
+			doRPCForm2(tr, f, rk, h, rh, s, badSig(r))
 		} else {
 			doForm(tr, f, rk, h, s)
 		}
@@ -659,9 +670,9 @@ func genC12(tr *vhlib.Trace, r *vhlib.Rand, rpc bool) {
 				if r.Chance(1, 6) {
 					mutate(r, &k, e)
 				}
-				doRPCRenew3(tr, e, k, f, rk, h, rh, s)
+				doRPCRenew3(tr, e, k, f, rk, h, rh, s, badSig(r))
 			} else {
-				doRPCRenew2(tr, e, f, fv, rk, h, rh, s)
+				doRPCRenew2(tr, e, f, fv, rk, h, rh, s, badSig(r))
 			}
 			return
 		}
@@ -683,6 +694,169 @@ func genC12(tr *vhlib.Trace, r *vhlib.Rand, rpc bool) {
 	}
 }
 
+
+// ---- signing-site generator ---------------------------------------------------------
+
+var siteOps = []string{"s2roots", "s2read", "s2write", "s3pay", "s3fund", "s3exec"}
+
+// genSite builds one signing-site case: a well-formed current revision, the
+// honest proposal for the site's price / allowed burn, and at most one hostile
+// change (each safety clause violated alone) or one tampered non-value field.
+func genSite(tr *vhlib.Trace, r *vhlib.Rand) {
+	k := siteCase{op: siteOps[r.Intn(len(siteOps))], adopt: true, h: pickU64(r, 1, 1000)}
+	k.s = st{WS: 144, MD: 25920, Addr: 2, CP: cur(bi(200)), MC: cur(pow2(100)),
+		SP: cur(vhlib.Pick(r, bi(0), bi(1), bi(2))), Col: cur(vhlib.Pick(r, bi(0), bi(1), bi(3))),
+		RC: cur(vhlib.Pick(r, bi(0), bi(1), bi(100))), B: cur(vhlib.Pick(r, bi(0), bi(1), bi(10), bi(1000)))}
+	if k.op == "s2write" || k.op == "s3exec" {
+		k.act = r.Intn(2)
+		if k.op == "s2write" && r.Chance(3, 4) {
+			k.act = 0 // appending a 4 MiB sector is slow
+		}
+	}
+	// current revision: renter R, host valid Hv, host missed Hm, void
+	R := add(pow2(40), amount(r))
+	Hv := add(pow2(34), amount(r))
+	if add(R, Hv).Cmp(two128) >= 0 {
+		R, Hv = pow2(100), pow2(99)
+	}
+	Hm := add(pow2(33), upTo(r, sub(Hv, pow2(33))))
+	c := rv{No: pickU64(r, 1, 5, 1000, math.MaxUint64-2, math.MaxUint64-1), WS: k.h + 100, WE: k.h + 244, UH: 10, UC: 10,
+		FS: uint64(1+r.Intn(3)) * (1 << 22), Root: 1 + r.Intn(2),
+		V: []out{{1, cur(R)}, {2, cur(Hv)}},
+		M: []out{{1, cur(R)}, {2, cur(Hm)}, {0, cur(sub(Hv, Hm))}}}
+	if strings.HasPrefix(k.op, "s3") && k.op != "s3exec" && r.Chance(1, 6) {
+		c.M = []out{{1, cur(R)}, {2, cur(Hv)}}
+		Hm = Hv
+	}
+	k.c = c
+	priceC, burnC := siteCosts(k)
+	price, allowed := bigOf(priceC), bigOf(burnC)
+	// honest proposal
+	t := new(big.Int).Set(price)
+	if r.Chance(1, 3) {
+		t = add(t, bi(int64(r.Intn(1000))))
+	} else if price.Sign() > 0 && r.Chance(1, 12) { // hostile: pays less than the price of the RPC (consistently in all outputs)
+		t = sub(price, bi(1))
+		if r.Chance(1, 3) {
+			t = upTo(r, t)
+		}
+	}
+	b := upTo(r, allowed)
+	if r.Chance(1, 2) {
+		b = new(big.Int).Set(allowed)
+	}
+	p := c.clone()
+	p.No = c.No + pickU64(r, 1, 1, 1, 7)
+	switch k.op {
+	case "s2roots", "s2read", "s2write":
+		setV(p.V, 0, sub(R, t))
+		setV(p.V, 1, add(Hv, t))
+		setV(p.M, 0, sub(R, t))
+		setV(p.M, 1, sub(Hm, b))
+		setV(p.M, 2, add(getV(c.M, 2), add(t, b)))
+	case "s3pay", "s3fund":
+		if r.Chance(2, 3) {
+			t = add(t, amount(r).Rsh(amount(r), 3)) // the part that funds the account
+			if t.Cmp(R) > 0 {
+				t = new(big.Int).Set(R)
+			}
+		}
+		setV(p.V, 0, sub(R, t))
+		setV(p.V, 1, add(Hv, t))
+		setV(p.M, 0, sub(R, t))
+		setV(p.M, 1, add(Hm, t))
+	case "s3exec":
+		setV(p.M, 1, sub(Hm, b))
+		setV(p.M, 2, add(getV(c.M, 2), b))
+	}
+	// hostile changes, one at a time
+	bump := func(l []out, i int, d int64) {
+		if i < len(l) {
+			l[i].V = cur(add(bigOf(l[i].V), bi(d)))
+		}
+	}
+	switch r.Intn(44) { // 27 hostile kinds, otherwise the honest proposal
+	case 0: // the host's valid payout gains less than the price
+		bump(p.V, 1, -1)
+		bump(p.V, 0, 1)
+	case 1: // host valid payout lowered (sum shrinks)
+		bump(p.V, 1, -1)
+	case 2: // host valid payout lowered below the current one, renter raised
+		setV(p.V, 0, add(R, bi(1)))
+		setV(p.V, 1, sub(Hv, bi(1)))
+	case 3: // the host's missed payout loses more than the allowed burn
+		d := add(sub(allowed, b), bi(1))
+		setV(p.M, 1, sub(bigOf(p.M[1].V), d))
+		if len(p.M) > 2 {
+			setV(p.M, 2, add(bigOf(p.M[2].V), d))
+		} else {
+			setV(p.M, 0, add(bigOf(p.M[0].V), d))
+		}
+	case 4: // host missed payout moved to the renter
+		bump(p.M, 1, -1)
+		bump(p.M, 0, 1)
+	case 5: // renter missed payout raised above the current one
+		setV(p.M, 0, add(getV(c.M, 0), bi(1)))
+		bump(p.M, 1, -1)
+	case 6: // void output shrunk in favour of the renter
+		bump(p.M, 2, -1)
+		bump(p.M, 0, 1)
+	case 7: // void output shrunk in favour of the host
+		bump(p.M, 2, -1)
+		bump(p.M, 1, 1)
+	case 8: // valid sum inflated
+		bump(p.V, 1, 1)
+	case 9: // missed sum inflated
+		bump(p.M, len(p.M)-1, 1)
+	case 10: // revision number not increased
+		p.No = pickU64(r, c.No, c.No-1, 0)
+	case 11: // valid values swapped
+		p.V[0].V, p.V[1].V = p.V[1].V, p.V[0].V
+	case 12: // missed values swapped
+		p.M[0].V, p.M[1].V = p.M[1].V, p.M[0].V
+	case 13: // one value at an overflow edge
+		l := [][]out{p.V, p.M}[r.Intn(2)]
+		l[r.Intn(len(l))].V = cur(pickEdge(r))
+	case 14: // transfer in the valid outputs differs from the one in the missed outputs
+		bump(p.M, 0, 1)
+		bump(p.M, len(p.M)-1, -1)
+	case 15: // wrong number of values
+		if r.Chance(1, 2) {
+			p.V = append(p.V, out{3, types.ZeroCurrency})
+		} else {
+			p.M = p.M[:len(p.M)-1]
+		}
+	case 16: // the renter signs a different window
+		p.WS++
+	case 17:
+		p.WE++
+	case 18: // ... a different unlock hash / unlock conditions
+		p.UH = 3
+	case 19:
+		p.UC = 3
+	case 20: // ... a different file size / Merkle root (payment must not change the file)
+		p.FS, k.adopt = p.FS+1, false
+	case 21:
+		p.Root, k.adopt = p.Root+1, false
+	case 22: // ... a different payout address
+		p.V[1].A = 1
+	case 23: // payment not credited to the host's missed payout (goes to the void)
+		if len(p.M) > 2 {
+			d := sub(bigOf(p.M[1].V), Hm)
+			if d.Sign() > 0 {
+				setV(p.M, 1, Hm)
+				setV(p.M, 2, add(bigOf(p.M[2].V), d))
+			}
+		}
+	case 24: // current revision already locked
+		k.c.No = math.MaxUint64
+	case 25, 26: // a random field-wise perturbation of the proposal
+		mutate(r, &p, k.c)
+	}
+	k.p = p
+	doSite(tr, k)
+}
+
 // TestEngine is the harness entry point (see vhlib.Config for the environment).
 func TestEngine(t *testing.T) {
 	cfg := vhlib.LoadConfig()
@@ -702,9 +876,16 @@ func TestEngine(t *testing.T) {
 		return
 	}
 	r := vhlib.NewRand(cfg.Seed)
-	// VH_LEN = per-mille of cases that go through the real RPC handlers (slower)
+	// VH_LEN = per-mille of cases that go through the real form / renew handlers (slower),
+	// VH_X_SITES = per-mille of cases that drive a revision signing site of the real handlers
 	rpcShare := cfg.Len
+	siteShare, _ := strconv.Atoi(cfg.Extra["sites"])
+	doSignSites(tr)
 	for i := 0; i < cfg.N; i++ {
+		if r.Intn(1000) < siteShare {
+			genSite(tr, r)
+			continue
+		}
 		switch x := r.Intn(1000); {
 		case x < rpcShare:
 			genC12(tr, r, true)
